@@ -21,6 +21,9 @@ type Property struct {
 	// Extra runs non-exploration parts (e.g. C19 static rule). It returns failures and a description for evidence.
 	Extra func(tier string) ([]engine.Failure, map[string]any)
 	Assumptions []string
+	// NoReproduce: failures are reported without requiring an identical replay (C19: a nondeterministic transition is the
+	// violation itself and need not fail the same way twice)
+	NoReproduce bool
 }
 
 var Registry = map[string]*Property{}
